@@ -380,6 +380,8 @@ class MapDriver(hist.Driver):
             self.ops += [["fit", i, {"model_key": "hertz_para",
                                      "weight_cp": 0}],
                          ["fit", i, {"model_key": "hertz_cone"}],
+                         ["fit", i, {"model_key": "hertz_para",
+                                     "gcf_k": 0.5}],
                          ["edit", i, "weight_cp", 2e-7],
                          ["rate", i],
                          ["pre", i, P0]]
